@@ -3,6 +3,7 @@
 package main
 
 import (
+	"crypto/sha256"
 	"encoding/hex"
 	"math/big"
 	"math/rand"
@@ -162,3 +163,10 @@ func montWindowPair(r *rand.Rand, m *big.Int) (x, y *big.Int, ok bool) {
 	}
 	return x, y, true
 }
+
+func sha256Sum(b []byte) []byte {
+	h := sha256.Sum256(b)
+	return h[:]
+}
+
+func hexDecode(s string) ([]byte, error) { return hex.DecodeString(s) }
